@@ -93,7 +93,9 @@ def struct_default(facts, adt, field):
     g = facts.fns.get("<%s as core::default::Default>::default" % adt)
     if g is None:
         return None
-    sx = Sccp(g).run([(0, {})])
+    # (Arc::new(x) / Box::new(x) / Some-less wrappers read as x)
+    sx = Sccp(g, call_model=lambda c, argv: argv[0] if c.path in ("alloc::sync::Arc::new", "alloc::boxed::Box::new", "alloc::rc::Rc::new")
+              and argv else None).run([(0, {})])
     for bb, j, st in g.stmts():
         if st["k"] == "assign" and st["rv"]["k"] == "agg" and st["rv"].get("adt") == adt and field in st["rv"].get("fields", []):
             return operand_at(sx, bb, st, st["rv"]["ops"][st["rv"]["fields"].index(field)])
